@@ -6,6 +6,11 @@ import subprocess
 
 VERIF = os.path.dirname(os.path.dirname(os.path.abspath(__file__)))
 LEVELS = {
+    "C08": ("theorems for every cycle / junction predicate / cell list: np.split loses nothing, every interface runs junction-to-"
+            "junction through non-junctions, a cell's interfaces tile a rotation of its cycle, de-duplication keeps exactly one "
+            "copy up to reversal, the three copies of the internal predicate agree and equal the stated characterisation; "
+            "walk determinism / exactly-two-cells / lookup-by-cells are evaluated by a graph-walk oracle (tested, not proved)",
+            "4/C08", "Coq theorems on a Gallina model + differential correspondence + graph-walk oracle"),
     "C20": ("theorems over R for every polygon (reversal, shift, translation, scaling of area and perimeter, area = -shoelace, "
             "navigation, additivity under a cancellation hypothesis, neighbours); model tied to forsys/cell.py by exact "
             "(rational) correspondence on dyadic polygons and tissues", "4/C20",
